@@ -4,6 +4,7 @@
 From Coq Require Import NArith List Bool Lia.
 From AV Require Import Spec.Vt Spec.Sgr Spec.Targets Model.Base Model.Imp Generated.Table Proofs.TableFacts.
 From AV Require Import Generated.Adapters Model.Adapters Model.Owo Generated.OwoFn Proofs.OwoRender Proofs.OwoFnColours.
+From AV Require Import Generated.AdaptersFn Proofs.AdaptersGen.
 Import ListNotations.
 Local Open Scope N_scope.
 
@@ -345,4 +346,105 @@ Proof.
   - destruct fg as [c|]; [rewrite <- g_owo_of_tcolor_eq; destruct (g_owo_of_tcolor c) as [d|]|]; cbn [option_map]; try reflexivity;
       (destruct bg as [c'|]; [rewrite <- g_owo_of_tcolor_eq; destruct (g_owo_of_tcolor c') as [d'|]|]; cbn [option_map]; try reflexivity;
        apply g_owo_apply_eq; cbn; lia).
+Qed.
+
+(* ---- the image of the adapter: to_owo_style(s) is [owo_value s] ------------------------------------ *)
+
+Lemma owo_attrs_colours names : forall fg bg b fl,
+  owo_attrs (mkOwo fg bg b fl) names
+  = option_map (fun v => mkOwo fg bg (ow_bold v) (ow_flags v)) (owo_attrs (mkOwo None None b fl) names).
+Proof.
+  induction names as [|n t IH]; intros fg bg b fl; cbn [owo_attrs]; [reflexivity|].
+  unfold owo_attr. cbn [ow_flags set_ow_bold set_ow_flags ow_fg ow_bg ow_bold].
+  destruct (ad_name_eqb n owo_bold_name); [apply IH|].
+  destruct (ad_assoc n owo_flag_names); [apply IH|reflexivity].
+Qed.
+
+Definition og_style_eqb (a b : option owo_style) : bool :=
+  match a, b with
+  | Some x, Some y => Bool.eqb (ow_bold x) (ow_bold y) && (ow_flags x =? ow_flags y)
+                      && match ow_fg x, ow_bg x, ow_fg y, ow_bg y with None, None, None, None => true | _, _, _, _ => false end
+  | _, _ => false
+  end.
+
+Lemma owo_effects_value e : e < 4096 ->
+  owo_attrs (mkOwo None None false 0) (ad_conv_effects ad_gen_owo_effects e)
+  = Some (mkOwo None None (N.testbit e BOLD) (owo_flags_of e)).
+Proof.
+  intros H.
+  pose proof (forall_effects (fun e => og_style_eqb (owo_attrs (mkOwo None None false 0) (ad_conv_effects ad_gen_owo_effects e))
+                                                    (Some (mkOwo None None (N.testbit e BOLD) (owo_flags_of e))))
+                ltac:(vm_compute; reflexivity) e H) as A.
+  cbv beta in A. unfold og_style_eqb in A.
+  destruct (owo_attrs (mkOwo None None false 0) (ad_conv_effects ad_gen_owo_effects e)) as [[fg bg b fl]|]; [|discriminate].
+  cbn [ow_fg ow_bg ow_bold ow_flags] in A. destruct fg; [now rewrite andb_false_r in A|]. destruct bg; [now rewrite andb_false_r in A|].
+  rewrite andb_true_r in A. apply andb_true_iff in A. destruct A as [A B]. apply Bool.eqb_prop in A. apply N.eqb_eq in B.
+  now rewrite A, B.
+Qed.
+
+Lemma og_lt16_In i : i < 16 -> In i [0; 1; 2; 3; 4; 5; 6; 7; 8; 9; 10; 11; 12; 13; 14; 15].
+Proof.
+  intros H. rewrite <- (N2Nat.id i). assert (Hn : (N.to_nat i < 16)%nat) by lia.
+  revert Hn. generalize (N.to_nat i). intros n Hn.
+  do 16 (destruct n as [|n]; [cbn; repeat (first [left; reflexivity | right]) | ]). lia.
+Qed.
+
+Lemma owo_colour_of_adapter c : ad_colour_ok (Some c) -> owo_u8_colour (Some c) ->
+  owo_of_tcolor g_owo_ansi_names (ad_conv_colour ad_gen_owo_colors c) = Some (owo_colour c).
+Proof.
+  destruct c as [i|n|r g b]; cbn [ad_colour_ok owo_u8_colour ad_conv_colour owo_of_tcolor owo_colour]; intros H U.
+  - pose proof (og_lt16_In i H) as HI. cbn [In] in HI.
+    repeat (destruct HI as [<-|HI]; [reflexivity|]). destruct HI.
+  - apply N.ltb_lt in U. now rewrite U.
+  - reflexivity.
+Qed.
+
+Theorem owo_value_of_adapter s : owo_src_ok s -> owo_of_tstyle g_owo_ansi_names (ad_to_owo s) = Some (owo_value s).
+Proof.
+  intros ((Hfg & Hbg & _ & He) & Ufg & Ubg). unfold owo_of_tstyle, ad_to_owo, owo_value, owo_of_slot.
+  cbn [ad_t_fg ad_t_bg ad_t_ul ad_t_attrs].
+  destruct (s_fg s) as [cf|]; destruct (s_bg s) as [cb|]; cbn [option_map];
+    try rewrite (owo_colour_of_adapter cf Hfg Ufg); try rewrite (owo_colour_of_adapter cb Hbg Ubg); cbn [option_map];
+    rewrite owo_attrs_colours, (owo_effects_value _ He); reflexivity.
+Qed.
+
+(* ---- composition: adapter (translated) ; owo-colors (translated) ; terminal --------------------------- *)
+
+(* the rendering of ANY owo_colors::Style without a CSS colour, by the translated crate: no panic, and outside the
+   separator defect the bytes mean the colours and effects the fields of the value name *)
+Theorem translated_owo_render_meaning v : owo_style_ok v -> owo_rgb_u8 (ow_fg v) -> owo_rgb_u8 (ow_bg v) -> owo_sep_ok v ->
+  (bytes <- g_owo_render v [120] ;; ad_interp_x bytes)
+  = Some (mkStyle (owo_slot_meaning (ow_fg v)) (owo_slot_meaning (ow_bg v)) None (owo_eff_meaning (ow_bold v) (ow_flags v))).
+Proof.
+  intros Hok Rf Rb Hs. rewrite (translated_owo_render_is_model v [120] Hok). exact (owo_render_meaning v Hok Rf Rb Hs).
+Qed.
+
+(* render(convert s) interprets to project(s): to_owo_style as translated from the repository, the value run through
+   the translated constructors / builders of the crate, rendered by the translated Display impl, read by Spec/Vt + Spec/Sgr *)
+Definition g_owo_convert_render (s : sstyle) : option (list N) :=
+  t <- g_to_owo_style s ;; v <- g_owo_of_tstyle t ;; g_owo_render v [120].
+
+Theorem translated_owo_convert_render s : owo_src_ok s ->
+  g_owo_convert_render s = Some (owo_render (owo_value s) [120]).
+Proof.
+  intros Hs. unfold g_owo_convert_render. rewrite (g_to_owo_style_eq s (proj1 Hs)).
+  rewrite translated_owo_value_is_model, (owo_value_of_adapter s Hs).
+  apply translated_owo_render_is_model. apply (owo_value_ok s Hs).
+Qed.
+
+Theorem translated_owo_rendered_meaning s : owo_src_ok s -> owo_defect s = false ->
+  (bytes <- g_owo_convert_render s ;; ad_interp_x bytes) = Some (ad_project AdOwo s).
+Proof.
+  intros Hs Hd. rewrite (translated_owo_convert_render s Hs). exact (owo_render_interp s Hs Hd).
+Qed.
+
+Theorem translated_owo_rendered_refuted :
+  owo_src_ok owo_witness /\
+  g_owo_convert_render owo_witness = Some [27; 91; 52; 49; 49; 109; 120; 27; 91; 48; 109] /\
+  (bytes <- g_owo_convert_render owo_witness ;; ad_interp_x bytes) = Some style_default /\
+  (bytes <- g_owo_convert_render owo_witness ;; Some (ad_render_ok (ad_project AdOwo owo_witness) bytes)) = Some false.
+Proof.
+  destruct owo_render_refuted as (Hs & _ & Hb & Hi & Hf).
+  split; [exact Hs|]. rewrite (translated_owo_convert_render _ Hs). rewrite Hb in *.
+  split; [reflexivity|]. split; [exact Hi|]. now rewrite Hf.
 Qed.
